@@ -1,8 +1,9 @@
 // Directed scenario: a manifest that grows past several 32 KiB block boundaries (default MaxManifestFileSize), with a
 // crash right after the storage write that completes a block, i.e. between the two writes of a manifest record that
-// is split over the boundary.  session.recover decodes a record while streaming its chunks, so the fields of the
-// first chunk of a torn record (journal number, next file number, sequence number) stay in effect although the
-// record is skipped: acknowledged synced writes are lost.  Recorded as a known finding (known_findings_C04.txt).
+// is split over the boundary.  A torn record must leave nothing behind: before the repair ("fix: session.recover ...")
+// session.recover decoded a record while streaming its chunks, so the fields of the first chunk of a torn record
+// (journal number, next file number, sequence number) stayed in effect although the record was skipped, and
+// acknowledged synced writes were lost.
 package main
 
 import (
@@ -14,8 +15,6 @@ import (
 	"verifharness/lib/vlib"
 	"verifharness/lib/vstor"
 )
-
-const tornManifestID = "torn-manifest-record-partially-applied"
 
 type tornManifestCase struct {
 	What        string `json:"what"`
